@@ -333,7 +333,19 @@ proof fn lemma_v4_reply_roundtrip(cmd: u8, ip: u32, p: u16)
 
 // ---------------------------------------------------------------- SocksRequest writers (C03)
 
+/// `data.as_ref().map_or_else(|| Ok("".to_owned()), |(user, _)| Ok(user.to_owned()))` (SOCKS4 user id)
+#[verifier::external_body]
+pub fn vf_v4_user_id(data: &Option<(String, String)>) -> (r: Result<String, Error>) { unimplemented!() }
+
+//@ contract SocksAuthClient::supported_methods
+    ensures ret@ == self.offers(data),
+//@ end
+// A client is only ever asked to perform a method it offered: `data.as_ref().unwrap()` in PasswordAuth's USRPWD arm
+// is safe exactly because USRPWD is offered only with credentials.  write_v5 must establish this from the server's
+// method selection (C05: an upstream choosing an un-offered method must be an error, not a crash).
 //@ contract SocksAuthClient::auth_v5
+    requires
+        self.offers(data).contains(method),
     ensures
         ret.is_ok() ==> rw_advanced(*old(socket), *final(socket)),
 //@ end
